@@ -249,15 +249,24 @@ class History:
                     vandalise(a)
                 return res
 
+        class EmptyHDS(HDS):
+            "a dataset holding zero files: len() is 0, the object is falsy"
+
+            def __len__(self):
+                return 0
+
         self.HDS = HDS
         for i in range(n_datasets):
             k = rnd.random()
+            cls = EmptyHDS if rnd.random() < 0.3 else HDS
+            if cls is EmptyHDS:
+                self.mode_counts["falsy-dataset-objects"] = self.mode_counts.get("falsy-dataset-objects", 0) + 1
             if k < typed_share * 0.7:
-                ds, kind = HDS(f"ds{i}", self.model["Event"]), "Event"
+                ds, kind = cls(f"ds{i}", self.model["Event"]), "Event"
             elif k < typed_share:
-                ds, kind = HDS(f"ds{i}", self.model["PlainEvent"]), "Event"
+                ds, kind = cls(f"ds{i}", self.model["PlainEvent"]), "Event"
             else:
-                ds, kind = HDS(f"ds{i}"), "uEvent"
+                ds, kind = cls(f"ds{i}"), "uEvent"
                 ds.untyped = True
             self.datasets.append(ds)
             for m in monitors:
